@@ -338,6 +338,11 @@ def directed(run):
             add("ignored/%s/attachment=%s" % (kind, att), store_kind=kind, user={"script": [USER_OK]}, ops=[ceremony.with_ignored(reg_op(rng), attachment=att)])
         add("ignored/%s/all" % kind, store_kind=kind, user={"script": [USER_OK]},
             ops=[ceremony.with_ignored(reg_op(rng), attestation="enterprise", timeout=1, hints=["hybrid"], attestation_formats=["packed"], attachment="platform")])
+    # origins whose host has punycode labels: the client data carries the origin as the caller gave it (ASCII serialisation)
+    for tag, o, r in (("idn", "https://xn--bcher-kva.example", None), ("idn-sub", "https://login.xn--mnchen-3ya.example", "xn--mnchen-3ya.example"),
+                      ("idn-port", "https://xn--bcher-kva.example:8443", "xn--bcher-kva.example")):
+        for k in range(3):
+            add("origin/%s/%d" % (tag, k), store_kind="ref", user={"script": [USER_OK]}, ops=[reg_op(rng, origin=o, rp_id=r, cd=cd_mode(rng, k))])
     for ps in PARAMS:
         add("params%s" % (ps,), store_kind="ref", user={"script": [USER_OK] * 2},
             ops=[reg_op(rng, params=ps), reg_op(rng, params=ps, origin="https://other.org", rp_id=None)])
